@@ -530,3 +530,79 @@ func TestC09Batch(t *testing.T) { h.Run(t, c09GenBatch, c09CheckBatch) }
 
 // Native coverage-guided fuzzing of the same generator and oracle (thorough tier).
 func FuzzC09Batch(f *testing.F) { h.Fuzz(f, c09GenBatch, c09CheckBatch) }
+
+// ---- deterministic sweep over the size thresholds ----
+
+// c09FixedPool is a small hand-written pool (no randomness): four entries that
+// are valid under any cofactored option set and under the default options, a
+// cancelling pair, cofactorless entries and malformed ones.
+func c09FixedPool() h.C09Pool {
+	sc := func(v byte) h.Hex { return h.Hex{v, 0, 0, 0} }
+	p := h.C09Pool{
+		Keys: []h.C09Key{{Kind: "honest", A: sc(5)}, {Kind: "mixed", A: sc(7), J: 3}, {Kind: "honest", A: sc(11)}},
+		ND:   4,
+	}
+	e := func(key int, r byte, i int, opt h.C09Opt, cls string) h.C09Ent {
+		return h.C09Ent{Key: key, SKey: key, R: sc(r), I: i, MsgSeed: uint64(r)*977 + uint64(key), MsgLen: 10 + int(r), Opt: opt, Cls: cls}
+	}
+	p.Ents = []h.C09Ent{
+		e(0, 3, 0, h.C09Opt{Preset: 1}, "good"),
+		e(1, 4, 5, h.C09Opt{Preset: 3}, "good/torsion-R/mixed-A"),
+		e(2, 9, 0, h.C09Opt{Preset: 4}, "good"),
+		e(0, 0, 2, h.C09Opt{Preset: -1}, "good/small-R"),
+		e(0, 6, 0, h.C09Opt{Preset: 1}, "cancel+"),
+		e(2, 8, 0, h.C09Opt{Preset: 1}, "cancel-"),
+		e(0, 10, 0, h.C09Opt{Preset: 2}, "cofactorless/valid"),
+		e(0, 12, 1, h.C09Opt{Preset: 2}, "cofactorless/torsion-R"),
+		e(0, 13, 0, h.C09Opt{Preset: 1}, "S+L"),
+		e(2, 14, 0, h.C09Opt{Preset: 1}, "sig-length"),
+	}
+	p.Ents[4].SMode, p.Ents[4].Delta = 2, 3
+	p.Ents[5].SMode, p.Ents[5].Delta = 2, -3
+	p.Ents[8].SMode = 1
+	p.Ents[9].Mut = 4
+	return p
+}
+
+func c09FixedCases() []c09BatchCase {
+	pool := c09FixedPool()
+	var cases []c09BatchCase
+	specials := [][]int{nil, {4, 5}, {6}, {7}, {8}, {9}}
+	for _, n := range []int{1, 2, 93, 94, 95, 96, 249, 250, 251, 399, 400, 401} {
+		for si, sp := range specials {
+			for _, force := range []bool{false, true} {
+				if force && n > 96 && si > 1 {
+					continue // beyond 94 entries nothing is expanded anyway
+				}
+				if len(sp) > n {
+					continue
+				}
+				c := c09BatchCase{Pool: pool}
+				if force {
+					c.Ops = append(c.Ops, c09Op{K: "force"})
+				}
+				good := n - len(sp)
+				before := good / 2
+				api := []int{4, 1, 3, 0, 5, 2}[(si+n)%6]
+				if before > 0 {
+					c.Ops = append(c.Ops, c09Op{K: "add", API: api, Span: pool.ND, Start: n, Stride: 1, Count: before})
+				}
+				for _, idx := range sp {
+					c.Ops = append(c.Ops, c09Op{K: "add", API: 1 + 2*(n&1), Lo: idx, Span: 1, Stride: 1, Count: 1})
+				}
+				if good-before > 0 {
+					c.Ops = append(c.Ops, c09Op{K: "add", API: api, Span: pool.ND, Start: n + 1, Stride: 3, Count: good - before})
+				}
+				ent := h.C09Entropy{Kind: (n + si) % 5, Seed: uint64(n*31 + si), Chunk: []int{0, 7, 32}[n%3]}
+				c.Ops = append(c.Ops, c09Op{K: "verify", Ent: ent}, c09Op{K: "batchonly", Ent: ent}, c09Op{K: "verify", Ent: h.C09Entropy{Kind: 2, Seed: 1}},
+					c09Op{K: "reset"},
+					c09Op{K: "add", API: api, Span: pool.ND, Start: 1, Stride: 1, Count: 3},
+					c09Op{K: "batchonly", Ent: ent}, c09Op{K: "verify", Ent: ent})
+				cases = append(cases, c)
+			}
+		}
+	}
+	return cases
+}
+
+func TestC09BatchSizes(t *testing.T) { h.RunList(t, c09FixedCases(), c09CheckBatch) }
